@@ -2159,13 +2159,33 @@ def rule_P10(ctx):
                 and n.targets[0].slice.value == "term" and isinstance(n.value, ast.Constant) \
                 and n.value.value is True:
             sites.append(n)
+    def reads_wf_status(txt):
+        txt = str(txt)
+        if "get_workflow_status" in txt or txt.endswith("workflow_state.status"):
+            return True
+        if txt.isidentifier():
+            ds = _defs(f, txt)
+            return bool(ds) and all("get_workflow_status" in unparse(d.value)
+                                    or unparse(d.value).endswith("workflow_state.status")
+                                    for d in ds)
+        return False
     final = []
     for n in sites:
         atoms = _atoms_wo_validation(fg, n)
         wf = [a for a in atoms if a[0] == "in" and a[2] == completed
-              and "get_workflow_status" in a[1]]
+              and reads_wf_status(a[1])]
         if wf:
             final.append((n, atoms, wf))
+            continue
+        # the mark may sit under a disjunction (a verdict computed in a helper): what counts is
+        # the alternative that holds whenever the workflow is completed - further alternatives
+        # only mark in more situations
+        for alt in expand_alternatives(f, fg, atoms):
+            wf = [a for a in alt if a[0] == "in" and a[2] == completed
+                  and reads_wf_status(a[1])]
+            if wf:
+                final.append((n, alt, wf))
+                break
     if not final:
         res.violated(("final",), _f(
             "P10", f, f.node, "terminal mark on workflow completion",
